@@ -232,6 +232,7 @@ struct Agg {
     refs_computed: u64,
     refs_crashed: u64,
     degraded: u64,
+    engines: BTreeMap<String, u64>,
 }
 
 impl Agg {
@@ -262,6 +263,7 @@ impl Agg {
             refs_computed: 0,
             refs_crashed: 0,
             degraded: 0,
+            engines: BTreeMap::new(),
         }
     }
     fn bump(m: &mut BTreeMap<String, u64>, k: &str, by: u64) {
@@ -274,6 +276,10 @@ impl Agg {
         self.refs_crashed += r.refs_crashed;
         if r.degraded {
             self.degraded += 1;
+        }
+        if r.stratum == "C" {
+            let e = if r.degraded { "sequential (degraded)".to_string() } else { r.engine.clone() };
+            Self::bump(&mut self.engines, &e, 1);
         }
         if let Some(e) = r.herr {
             self.herrs.push((r.stratum.clone(), r.i, e, r.plan.clone()));
@@ -417,6 +423,23 @@ fn spawn_workers(
     Ok(())
 }
 
+fn scan_for(dir: &str, needle: &str, hits: &mut Vec<String>) {
+    let Ok(rd) = std::fs::read_dir(dir) else { return };
+    let mut entries: Vec<_> = rd.filter_map(|e| e.ok()).map(|e| e.path()).collect();
+    entries.sort();
+    for p in entries {
+        if p.is_dir() {
+            scan_for(&p.to_string_lossy(), needle, hits);
+        } else if p.extension().is_some_and(|e| e == "rs") {
+            if let Ok(t) = std::fs::read_to_string(&p) {
+                if t.contains(needle) {
+                    hits.push(p.to_string_lossy().to_string());
+                }
+            }
+        }
+    }
+}
+
 fn load_known() -> (Vec<String>, Vec<String>) {
     let path = std::env::var("VERIF_KNOWN").unwrap_or_else(|_| format!("{}/known-findings.txt", verif_root()));
     let mut known = Vec::new();
@@ -461,6 +484,29 @@ fn cmd_run(args: &[String]) -> i32 {
     };
     let rundir = format!("{root}/sim/target/runs/{}", std::process::id());
     let _ = std::fs::create_dir_all(&rundir);
+
+    // ---- which interleaving engines may be used on this tree
+    // The shuttle engine runs all simulated threads as coroutines on ONE OS thread, so
+    // thread-local state of the library would be shared between simulated threads — a
+    // difference from real threads that could raise a false alarm. The library has no
+    // thread-locals today; if a tree has one, only the real-threads engine is used.
+    let mut tl_files = Vec::new();
+    for dir in ["/repo/prqlc/prqlc/src", "/repo/prqlc/prqlc-parser/src"] {
+        scan_for(dir, "thread_local!", &mut tl_files);
+    }
+    let asked = std::env::var("VERIF_ENGINES").unwrap_or_default();
+    if (asked == "mixed" || asked == "shuttle") && !tl_files.is_empty() {
+        println!(
+            "note: thread_local! found in {} — the coroutine (shuttle) engine would share it between simulated threads; using the real-threads engine only",
+            tl_files.join(", ")
+        );
+        std::env::set_var("VERIF_ENGINES", "threads");
+    }
+    let engines_note = match std::env::var("VERIF_ENGINES").unwrap_or_default().as_str() {
+        "mixed" => "threads 3/4, shuttle 1/4".to_string(),
+        "shuttle" => "shuttle".to_string(),
+        _ => "threads".to_string(),
+    };
 
     // ---- phase H: harvest inputs that really panic on this tree
     let mut harvested: Vec<HarvestReport> = Vec::new();
@@ -651,6 +697,8 @@ fn cmd_run(args: &[String]) -> i32 {
             "samples": agg.samples,
             "executions_per_stratum": agg.per_stratum,
             "stratum_C_executions_not_interleaved": agg.degraded,
+            "stratum_C_engines": engines_note,
+            "stratum_C_executions_per_engine": agg.engines,
             "api_calls_executed": agg.calls,
             "calls_judged_against_reference": agg.judged,
             "calls_unjudged_reference_context_crashes": agg.unjudged,
